@@ -5,128 +5,109 @@ import json, subprocess
 TECH = "contract-based deductive verification: WP/VC generation over go/ssa of /repo, discharged by z3/cvc5"
 
 # property -> (level text, level note, design ref)
-CLAIMED = {
- "C14": ("Unbounded proof, for every segment, key and index density: the key index built by buildIndex/add satisfies the index invariant; "
-         "lookup returns a window containing every position that can hold the key and the lower bound of the key; findKeyPos, "
-         "findStartKeyInclusivePos, Get and Cursor are proved correct against the index-free specification for ANY window satisfying that contract, "
-         "hence results are identical for all index settings.",
-         "Assumes: SegmentKeysIndexMaxBytes < 2^32 and average key length <= maxKeyLength (stated preconditions of buildIndex); byte strings abstracted "
-         "by an order-embedding rank; products/quotients of two non-constants are uninterpreted functions constrained by lemmas of integer arithmetic; "
-         "loading of persisted segments (mmap) is outside these contracts.", "6/C14"),
- "C19": ("Unbounded proof of the byte-level encoding: op-word encode/decode round trip and reserved bits (exact bit-field semantics), size limits of "
-         "mutateEx/mutate with earlier operations intact, exact key/value bytes recorded by mutate, Alloc/AllocSet/AllocDel/AllocMerge entries denote "
-         "exactly the allocated bytes, Less/Swap order entries bytewise and permute whole triples, getOperationKeyVal/Get return the recorded slices.",
-         "Assumes: Alloc* arguments come from Alloc of the same batch with no reallocation in between and the value directly following the key (stated "
-         "precondition, the documented usage); sort.Sort (external) permutes by Less/Swap; persistence/compaction/reopen legs of the property are covered "
-         "only as far as the C04/C07 contracts reach; DeferredSort/CachePersisted equivalence is not covered by a contract yet.", "6/C19"),
-}
+BOUNDED = (" A bounded stand-in (labelled bounded in the evidence, never counted as proved) runs with the check: exhaustive small scope on the real heap iterator and "
+           "mergeInto (keys \"\",a,b; absent|Set|Del|Merge per key; stacks of <= 2 levels exhaustively plus seeded 3-level samples in quick, all <= 3 levels in thorough) against a reference fold.")
 
-CLAIMED["C10"] = ("Unbounded proof that every read path is the same function of the state: segment.Get, segmentStack.get/getMerged/Get are proved equal to the "
-  "reference read (newest segment holding the key decides, Del hides older entries, Merge operands applied on top of older levels); Collection.Get is "
-  "proved against the read of the concatenated sections (what Get on a fresh Snapshot returns).",
-  "Known finding S7/S22 (collection.get :: ensures#agree, reproduced on the real code by witness/s7_direct_get_del_test.go): Collection.Get disagrees with "
-  "Snapshot.Get across sections; the code-shaped postcondition ensures#chain pins today's behaviour. Assumed: Segment.Get is a deterministic function of the "
-  "segment contents (results named by uninterpreted functions); the lower level is an abstract function llGet; deferred sorting abstracted (segments sorted); "
-  "iteration agreement and the NoCopyValue copy in Footer.Get are not under contract yet.", "6/C10")
-CLAIMED["C20"] = ("Unbounded proof of the safety half: segmentStack.Stats sums over the whole tree of stacks (map-range invariant over child stacks, recursion by "
-  "contract), and statsSegmentsLOCKED reports CurDirtySegments == 0 only if top, mid and base hold no segment in any collection of the tree.",
-  "Fixed finding S20 (fix: f464960). Not covered: that an empty dirty tree implies the lower level holds every batch (needs the persister region contracts, "
-  "C13; known gap S14: a batch that only deletes a child collection leaves no segment); the progress half (gauges eventually reach zero) is outside this family.", "6/C20")
-
-CLAIMED["C18"] = ("Unbounded proof over all paths of every function that can reach a directory-changing primitive: os.Remove, removeFiles, removeFileOnClose (and its "
-  "deferred removal closures) and file creation require the ghost constant readOnlyMode() to be false, and every OpenFile call must pass O_RDONLY when it is true; "
-  "the obligations are discharged at every call site in openStore, OpenStore, Persist/persist, compactMaybe, compact, startOrReuseFile/startFileLOCKED/"
-  "createNextFileLOCKED, snapshotRevert and collection.Start (merger and persister are spawned only when not ReadOnly). The option fields the mode is linked to are "
-  "proved immutable after construction by a store-site scan.",
-  "Thin contracts: only the readOnly call-site obligations of these functions are generated (their other obligations belong to other properties). Assumed: writes "
-  "through a handle opened O_RDONLY are refused by the OS without effect; the OpenFile callback honours its flag; 'serves exactly the persisted content' is the "
-  "open path of C04 and is not decided here. Fixed finding S8 (fix: 8eb6f9b).", "6/C18")
-
-CLAIMED["C07"] = ("Unbounded proof of the structural half of compaction: mergeSegStacks yields footer.ss.a[splice:] ++ higher.a for the collection and, for every child, the "
-  "child footer's segments of the SAME incarnation followed by the incoming ones (children compacted fully); spliceFooter restores exactly the retained prefix; the footer "
-  "written by writeSegments has one segment, the incarnation of its stack and that stack's children. P0 (no slice out of range) included.",
-  "Not under contract yet: that the merged segment written by mergeInto/compactWriter has the same content as the stack it replaces (needs the heap-iterator contract, C09), "
-  "absence of deletion markers after full compaction, and removal of superseded files (C15). writeSegments has a thin contract (frame unchecked, I/O abstracted). "
-  "Fixed findings S9, S10, S11.", "6/C07")
-CLAIMED["C11"] = ("Unbounded proof, level by level over the child trees (recursion by contract, map-range invariants): buildNewFooter, mergeSegStacks, spliceFooter, writeSegments "
-  "and revertToSnapshot preserve the set of child collections, keep a child's persisted segments only for the same incarnation (a recreated child starts empty) and "
-  "drop deleted children; child maps never hold nil.",
-  "Each activation proves its own level and the level below (tree-wide statement by induction over activations, not machine-checked). Not under contract yet: "
-  "buildStackDirtyTop/appendChildStacks (in-memory side), restoreCollection, isolation of reads. Known finding S16b (revert drops child data at the next persist); "
-  "fixed S9, S10, S11.", "6/C11")
-CLAIMED["C12"] = ("Unbounded proof of the history chain: buildNewFooter links every new footer to the footer that was current; snapshotPrevious returns what the recovery scan finds "
-  "at exactly that offset of the same file; SnapshotRevert installs a footer with exactly the segment locations (and children) of the target, durably appended via "
-  "persistFooter, linked to the footer that was current, and later rounds build on it (buildNewFooter from s.footer).",
-  "Assumed: the recovery scan returns the footer at the offset it is started from (C05), persistFooter writes what it is given (trusted here), JSON round trip. "
-  "Known finding S16b (child data of a reverted snapshot is dropped by the next persist); fixed S16 (history link).", "6/C12")
-
-CLAIMED["C05"] = ("Unbounded proof of the parts of crash safety a contract on moss can carry: (1) the recovery scan ScanFooter, for EVERY file content and size (file reads return "
-  "arbitrary bytes), never panics or allocates a negative size and, unless a file operation failed, ends with a footer or ErrNoValidFooter - torn tails, half written footers, "
-  "look-alikes of the magic and garbage are skipped; (2) persistFooter never writes a footer while earlier writes are unsynced and returns success only with everything synced "
-  "(unless NoSync); (3) the footer is placed at the first page boundary at or after the end of the file, every WriteAt is at or beyond the known file size (append-only).",
-  "The crash model (which images a crash can leave, that Sync makes writes durable, directory operation ordering) is assumed; that the scan returns the LAST complete footer and that "
-  "openStore falls back to an older file are not under contract yet (S3: header-less newest file, not fixed). binary.Read on in-memory buffers trusted not to fail; loadSegments assumed to "
-  "fail only on I/O failure. Fixed findings S1, S2.", "6/C05")
-CLAIMED["C06"] = ("Unbounded proof of error propagation and non-publication for every sequence of file-operation results (each File call returns a nondeterministic result; a short write "
-  "counts as a failure): persistFooter/persistFooterUnsynced report any failed or short write or sync; the writer goroutine of bufferedSectionWriter hands a failure back as an "
-  "error; Store.persist, compact and compactMaybe leave s.footer untouched whenever they return an error.",
-  "persistBasicSegment (two goroutines reporting over a channel), persistHeader and the Stop()/Flush() side of the buffered writer are not under contract (channel protocol not modelled; "
-  "covered by witness test only); runPersister's retry (same stack offered again) belongs to C13; the progress half (catches up afterwards) is outside this family. Fixed finding S6.", "6/C06")
-CLAIMED["C09"] = ("Unbounded proof for the single-segment path: findStartKeyInclusivePos is the lower bound for any index window; Cursor/segmentCursor Current/Next/Seek/nextDelta; "
-  "iteratorSingle.Next moves to the smallest later enumerated position (deletions skipped unless asked for), stays done once done, terminates (measure); CurrentEx/Current return the "
-  "entry under the cursor; SeekTo(x) lands on the smallest enumerated in-range position with key >= x for forward, backward and after-exhaustion seeks, including the naiveSeekTo loop.",
-  "The general heap iterator (iterator.Next/SeekTo over container/heap) is not under contract (planned as a bounded stand-in, not counted as proved); merge resolution in "
-  "iterator.Current belongs to C08. Fixed finding S23 (found by the verifier).", "6/C09")
-CLAIMED["C15"] = ("Unbounded proof of the reference accounting primitives: FileRef/mmapRef/Footer/segmentStack/SnapshotWrapper AddRef/DecRef change exactly one count by one; at zero the "
-  "next level is released exactly once (file closed and dropped, mapping dropped and its file count released, footer drops its locations and the count it holds on every child footer, "
-  "nothing at its level or above is touched); counts above zero keep file, mapping and locations; Store.snapshot adds exactly one count to the current footer.",
-  "Exact accounting across shared mappings/files (SegmentLocs.AddRef/DecRef over possibly shared mmapRefs) is trusted, as are Unmap/Close/Remove; per-function balance of persist/compact/"
-  "snapshotPrevious is not under contract yet; footer trees assumed to be trees (ghost depth). Fixed findings S12, S17.", "6/C15")
-
-CLAIMED["C01"] = ("Unbounded proof of the per-step legs of 'reads reflect the executed batches': (a) the read path - segment.Get/findKeyPos, segmentStack.get/getMerged/Get - equals the reference "
-  "read of the stack (newest entry decides, Del hides, empty value is a non-nil empty slice: loadBasicSegment gives a loaded segment a non-nil buf); (b) every state change of the "
-  "collection keeps that read unchanged or adds exactly the batch: ExecuteBatch installs top ++ [batch segment] in one critical section and drops the cached snapshot, the merger "
-  "callback moves the already merged stack to mid and empties top, mergerNotifyPersister and the persister only move sections between slots; sections stay well-formed sorted stacks "
-  "(lock invariant).",
-  "The whole-history statement (every history x schedule equals a reference map) is the composition of these steps and is NOT machine-checked as one theorem: collection.snapshot's "
-  "concatenation of the sections has a thin contract (call-site obligations only), merge()/mergeInto content equivalence (merged segment == stack it replaces) and the heap iterator are not "
-  "under contract, batches with DeferredSort are excluded by precondition. Fixed finding S5.", "6/C01")
-CLAIMED["C02"] = ("Unbounded proof of the mechanisms that keep a snapshot frozen: buildStackDirtyTop (every ExecuteBatch) builds a FRESH stack with a fresh segment array and copies the old "
-  "entries (copy-on-write: the stack a snapshot holds is never written), Store.snapshot adds exactly one count to the footer it returns, Footer.DecRef releases segment locations and child "
-  "footers only when the count reaches zero, counts above zero keep file, mapping and locations (with C15).",
-  "Not under contract: collection.snapshot's copying of the section pointers (thin contract), iterator stability, the mmap layer (munmap only at refcount zero is proved in mmapRef.DecRef "
-  "under C15; the OS keeping an unlinked mapped file readable is assumed). The whole-history statement is not machine-checked as one theorem. Fixed findings S12, S17.", "6/C02")
-CLAIMED["C03"] = ("Unbounded proof, for every interleaving at lock granularity (guarded fields are havocked at every acquire, the lock invariant is all that is known): ExecuteBatch publishes "
-  "a batch in exactly one critical section - the new top is old top ++ [batch segment] with all child segments in the same new stack, cached snapshot dropped, other sections untouched - and "
-  "publishes nothing on its early-exit paths; Snapshot() reads all sections inside one critical section and changes none; the merger callback swaps mid/top in the same critical section; "
-  "every access to a guarded field is proved to happen with collection.m held.",
-  "Order within one writer follows from ExecuteBatch being synchronous (not a contract). The prefix-monotonicity statement over successive snapshots is a consequence of the region "
-  "contracts argued in DESIGN.md, not a machine-checked theorem; child-collection installation is proved at the stack level (buildStackDirtyTop loops), not per key.", "6/C03")
-CLAIMED["C04"] = ("Unbounded proof of the layout and load legs: page arithmetic (pageAlignCeil/Floor/pageOffset, exact), buildNewFooter carries every old location plus one per persisted "
-  "segment and every child footer, loadBasicSegment views exactly the byte ranges a location names (lengths, offsets, totals; non-nil buf for empty key/value bytes).",
-  "Not under contract: persistBasicSegment/persistHeader writing the bytes the location later names (goroutine/channel protocol), ReadFooter/loadSegments/JSON round trip (trusted external), "
-  "the prefix statement for an early Close (persister schedule). Reopen equality is therefore decided only as far as these legs reach. Fixed finding S5.", "6/C04")
-CLAIMED["C08"] = ("Unbounded proof for point reads and the iterator's Current: segmentStack.get/getMerged fold the operands from the newest level down - each operand applied exactly once over "
-  "the value of the levels strictly below (or base, or lower level) - against the recursive reference stackRead; iteratorSingle.Current and iterator.Current/CurrentEx resolve a Merge entry "
-  "by the same read strictly below the entry's level with the configured operator.",
-  "MergeOperator.FullMerge is an uninterpreted deterministic function (any operator, commutative or not). Not under contract: mergeInto/compaction resolving or preserving operands when "
-  "segments are merged (needs the heap iterator contract), reopen. Known finding S7 (Collection.Get vs sections) is reported under C10.", "6/C08")
-CLAIMED["C13"] = ("Unbounded proof of the hand-over protocol at lock granularity: mergerNotifyPersister moves mid into base only when base is empty, in one critical section, signalling the "
-  "persister, and never overwrites a base that is still being persisted; runPersister offers exactly stackDirtyBase to LowerLevelUpdate, on success installs the returned snapshot and "
-  "clears base in one critical section (CachePersisted: moves it to clean), on failure keeps base so the same stack is offered again.",
-  "Not under contract: that the stack offered contains exactly the not-yet-persisted mutations in order (needs merge() content equivalence), the documented consumer protocol (iterate with "
-  "deletions, resolve merges with Get), and liveness (drains eventually). LowerLevelUpdate is an unknown callback assumed not to re-enter the collection.", "6/C13")
-CLAIMED["C16"] = ("Unbounded proof of the safety half: lock invariant 'at most MaxPreMergerBatches segments in top' holds at every release of collection.m in every function under contract; "
-  "after Close, NewBatch/Snapshot/Get/ExecuteBatch(non-empty) return ErrClosed; Close closes stopCh and broadcasts both condition variables inside the critical section; the merger callback "
-  "and ResetStackDirtyTop wake blocked writers whenever they make room; ExecuteBatch's wait loop re-checks closed after every wake-up; every function releases the lock on every path.",
-  "The liveness half (calls return in bounded time) is outside this family: proved are the wake-up obligations (no missed signal at the points where room is made), not termination of "
-  "waiting. Channel-based notification (pingMergerCh, awakePersisterCh) is abstracted. Fixed finding S18.", "6/C16")
+CLAIMED = {}
+CLAIMED["C01"] = ("Unbounded proof of the per-step legs of 'reads reflect the executed batches': (a) the read path - segment.Get/findKeyPos/mutateEx, segmentStack.get/getMerged/Get - equals the "
+  "reference read of a stack (newest entry decides, Del hides, empty value is a non-nil empty slice); (b) collection.snapshot hands out exactly the unskipped sections in the order clean, base, "
+  "mid, top over the collection's lower level and changes no section (proved for the path that holds the lock; the merger passes exactly the flags for mid++top); (c) every state change keeps "
+  "that read or adds exactly the batch: ExecuteBatch installs top ++ [batch segment] in one critical section, the merger callback moves the merged stack to mid and empties top, "
+  "mergerNotifyPersister and the persister only move sections between slots, merge() keeps the untouched older levels and replaces the rest by ONE segment that mergeInto produced with "
+  "tombstones kept unless nothing lies below; isEmpty/Stats speak about the whole tree of child stacks." + BOUNDED,
+  "The whole-history statement is the composition of these steps and is NOT machine-checked as one theorem. Trusted: mergeInto's content (only its call-site preconditions and the shape "
+  "of the result are proved; the bounded stand-in exercises it), sort.Sort. snapshot()'s lock-taking path (merger) and the child-stack part of appendChildStacks are assumed (see "
+  "callee_contracts_relied_on). DeferredSort batches are excluded by precondition. Fixed findings S5, S26.", "13/C01")
+CLAIMED["C02"] = ("Unbounded proof of the mechanisms that keep a snapshot frozen: buildStackDirtyTop (every ExecuteBatch) builds a FRESH stack with a fresh segment array and carries the "
+  "nested child stacks over; ExecuteBatch drops the cached snapshot in the same critical section; collection.snapshot copies the section contents into a fresh stack and changes no section; "
+  "ChildCollectionSnapshot and Store.snapshot add exactly one count; Footer.DecRef releases locations and child footers only at count zero; Footer.Get returns a private copy unless NoCopyValue.",
+  "iterator.SeekTo is proved not to release the iterator's closer. Not under contract: the mmap layer below mmapRef (OS keeps an unlinked mapped file readable: assumed). Whole-history "
+  "statement not machine-checked. Fixed S12, S17, S24 (witness only).", "13/C02")
+CLAIMED["C03"] = ("Unbounded proof at lock granularity (guarded fields are havocked at every acquire; only the lock invariant is known): ExecuteBatch publishes a batch in exactly one critical "
+  "section - new top = old top ++ [batch segment], child segments in the same new stack (nested child stacks carried over), cached snapshot dropped, other sections untouched - and publishes "
+  "nothing on its early exits; Snapshot() reads all sections inside one critical section and changes none; the merger callback swaps mid/top in one critical section; every access to a guarded "
+  "field is proved to hold collection.m.",
+  "Known finding S7 (Collection.Get does not see a Del/Merge of a newer section; reported under C03 and C10, pinned by ensures#chain). Prefix monotonicity of successive snapshots is a "
+  "consequence argued in DESIGN.md, not a machine-checked theorem. DeferredSort (seed C03/3) excluded by precondition.", "13/C03")
+CLAIMED["C04"] = ("Unbounded proof of the layout and load legs: page arithmetic (exact), buildNewFooter carries every old location plus one per persisted segment and every live child footer, "
+  "compaction (mergeSegStacks/spliceFooter/writeSegments) keeps the incarnations and children, loadBasicSegment views exactly the byte ranges a location names (non-nil buf), isEmpty says "
+  "'nothing to persist' only for an empty tree, the merger never overwrites a base that is being persisted, restoreCollection keeps the incarnation counter above every restored child.",
+  "Not under contract: persistBasicSegment/persistHeader (goroutine protocol), ReadFooter/JSON round trip (trusted), the prefix statement for an early Close. "
+  "Fixed S5, S27 (reopen failed when a superseded file vanished during cleanup; witness only).", "13/C04")
+CLAIMED["C05"] = ("Unbounded proof of the parts of crash safety a contract on moss can carry: (1) ScanFooter, for EVERY file content (reads return arbitrary bytes), never panics or allocates a "
+  "negative size, ends with a footer or ErrNoValidFooter unless a file operation failed, and the footer it returns records the position it was found at; (2) persistFooter never writes a "
+  "footer while earlier writes are unsynced and succeeds only with everything synced (unless NoSync); (3) append-only: footers and compaction sections are placed at or beyond the known "
+  "file size. All blocks of ScanFooter are proved reachable (vacuity covers).",
+  "The crash model (which images a crash can leave, Sync durability, directory ordering) is assumed; 'LAST complete footer' and openStore's fallback to an older file (S3, unrepaired) are not "
+  "under contract. encoding/json sets exported fields only (trusted). Fixed S1, S2.", "13/C05")
+CLAIMED["C06"] = ("Unbounded proof of error propagation and non-publication for every sequence of file-operation results (each File call returns a nondeterministic result; a short write is a "
+  "failure): persistFooter/persistFooterUnsynced report any failed or short write or sync; the writer goroutine of bufferedSectionWriter hands a failure back; Store.persist, compact and "
+  "compactMaybe leave s.footer untouched whenever they return an error; a failed round never schedules a pre-existing (live) file for removal and a failed full compaction schedules the file "
+  "it started.",
+  "persistBasicSegment, persistHeader and Stop()/Flush() are not under contract (channel protocol abstracted; witness only); the path argument of os.Remove is not modelled (seed C06/3). "
+  "Ghost 'doomed file' is set by an assumed postcondition of removeFileOnClose. Fixed S6.", "13/C06")
+CLAIMED["C07"] = ("Unbounded proof of the structural half of compaction: mergeSegStacks yields footer.ss.a[splice:] ++ higher.a with NO lower level, and for every child the child footer's segments "
+  "of the SAME incarnation followed by the incoming ones (children compacted fully); spliceFooter restores exactly the retained prefix; the footer written by writeSegments has one segment, "
+  "the incarnation and the children of its stack; merge()/writeSegments call mergeInto with tombstones kept unless nothing lies below; failed rounds clean up the file they started.",
+  "Content equality of the merged segment is mergeInto's trusted contract (bounded stand-in under C08/C09); that a SUCCESSFUL full compaction schedules the superseded file (seed C07/2) "
+  "and absence of tombstones after full compaction (optimizeTail copies them) are not decided. Fixed S9, S10, S11.", "13/C07")
+CLAIMED["C08"] = ("Unbounded proof for point reads and Current: get/getMerged fold the operands from the newest level down, each applied exactly once over the value of the levels strictly below "
+  "(or base, or lower level); iteratorSingle.Current and iterator.Current/CurrentEx resolve a Merge entry by the same read; merge() passes each child the base of the SAME incarnation and "
+  "keeps tombstones unless nothing lies below; the compaction stack has no lower level (operands are not folded twice)." + BOUNDED,
+  "MergeOperator.FullMerge is an uninterpreted deterministic function. What mergeInto writes is trusted (the bounded stand-in compares it with the reference, incl. over a base and a lower "
+  "level). Reopen not covered.", "13/C08")
+CLAIMED["C09"] = ("Unbounded proof for the single-segment path: findStartKeyInclusivePos is the lower bound for any index window; cursors; iteratorSingle.Next/CurrentEx/Current/SeekTo incl. the "
+  "naiveSeekTo loop (order, range, deletions skipped unless asked for, termination); StartIterator degrades to the single-segment iterator only when exactly one source had entries." + BOUNDED,
+  "The general heap iterator (Next/SeekTo/startIterator) is covered ONLY by the bounded stand-in - not a proof. Fixed S23 (found by the verifier), S26 (found by the bounded stand-in).", "13/C09")
+CLAIMED["C10"] = ("Unbounded proof that every point-read path is the same function of the state: segment.Get, segmentStack.get/getMerged/Get equal the reference read; Collection.Get is proved "
+  "against the sections its own critical section saw; Footer.Get copies unless NoCopyValue." + BOUNDED,
+  "Known finding S7/S22 (collection.get :: ensures#agree, witness test): Collection.Get disagrees with Snapshot.Get across sections; ensures#chain pins today's behaviour. Iteration agreement "
+  "only through the bounded stand-in.", "13/C10")
+CLAIMED["C11"] = ("Unbounded proof, level by level over the child trees (recursion by contract, accumulating map-range invariants): buildStackDirtyTop carries nested child stacks and gives every "
+  "new child a strictly larger incarnation number; buildNewFooter, mergeSegStacks, spliceFooter, writeSegments, merge and revertToSnapshot preserve the set of children, keep persisted "
+  "segments only for the same incarnation and drop deleted children; child maps never hold nil; ChildCollectionSnapshot counts.",
+  "Each activation proves its level and the level below; the tree-wide statement is by induction over activations (not machine-checked); collection/footer trees are assumed trees (ghost "
+  "depth) and a call on a child is assumed to touch only its subtree. appendChildLLSnapshot (S15) not under contract. Known finding S16b; fixed S9, S10, S11.", "13/C11")
+CLAIMED["C12"] = ("Unbounded proof of the history chain: buildNewFooter links every new footer to the footer that was current; ScanFooter records the position a footer was found at; "
+  "snapshotPrevious returns what the scan finds at exactly the linked offset of the same file; SnapshotRevert installs a footer with exactly the locations and ALL children of the target, "
+  "durably appended, linked to the footer that was current.",
+  "Assumed: JSON round trip, the scan's abstract result function. Known finding S16b (reverted child data dropped by the next persist); fixed S16.", "13/C12")
+CLAIMED["C13"] = ("Unbounded proof of the hand-over protocol at lock granularity: mergerNotifyPersister moves mid into base only when base is nil, in one critical section, signalling the persister; "
+  "runPersister offers stackDirtyBase, on success installs the returned snapshot and clears base in one critical section (CachePersisted: moves it to clean), on failure keeps base; "
+  "snapshot() composes the sections in the documented order with the documented skip flags; get() consults base before the lower level; merge keeps what it must.",
+  "Not under contract: the consumer protocol (iterate with deletions, resolve merges), liveness. LowerLevelUpdate is an unknown callback assumed not to re-enter the collection.", "13/C13")
+CLAIMED["C14"] = ("Unbounded proof, for every segment, key and index density: the key index built by buildIndex/add satisfies the index invariant; lookup returns a window containing every "
+  "position that can hold the key; findKeyPos, findStartKeyInclusivePos, Get and Cursor are correct for ANY window satisfying that contract, hence identical for all index settings.",
+  "Assumes SegmentKeysIndexMaxBytes < 2^32 and average key length <= maxKeyLength (stated preconditions); byte strings through an order embedding; products/quotients of two non-constants "
+  "uninterpreted with lemmas.", "13/C14")
+CLAIMED["C15"] = ("Unbounded proof of the reference accounting primitives: FileRef/mmapRef/Footer/segmentStack/SnapshotWrapper AddRef/DecRef/segmentLocs change exactly one count by one; at zero "
+  "the next level is released exactly once; counts above zero keep file, mapping and locations; Store.snapshot and ChildCollectionSnapshot add exactly one count; failed compaction rounds "
+  "schedule exactly the file they started for removal.",
+  "Exact accounting across shared mappings (SegmentLocs.AddRef/DecRef) trusted; per-path balance of persist/compact not under contract. iterator.SeekTo releases nothing (ghost count "
+  "of Close calls). Fixed S12, S17, S24 (witness only).", "13/C15")
+CLAIMED["C16"] = ("Unbounded proof of the safety half: lock invariant 'at most MaxPreMergerBatches segments in top' at every release of collection.m; after Close, NewBatch/Snapshot/Get/"
+  "ExecuteBatch(non-empty) return ErrClosed; Close closes stopCh and broadcasts both condition variables inside the critical section and leaves no cached snapshot; the merger callback and "
+  "ResetStackDirtyTop wake blocked writers; ExecuteBatch's wait loop re-checks; the merger's wait for the persister also listens on stopCh.",
+  "Liveness (calls return in bounded time) is outside this family: proved are the wake-up obligations, not termination. Fixed S18.", "13/C16")
+CLAIMED["C18"] = ("Unbounded proof over all paths of every function that can reach a directory-changing primitive: os.Remove, removeFiles, removeFileOnClose (and its deferred closures) and file "
+  "creation require the ghost constant readOnlyMode() to be false, and every OpenFile call passes O_RDONLY when it is true; discharged at every call site in openStore, OpenStore, Persist/"
+  "persist, compactMaybe, compact, startOrReuseFile/startFileLOCKED/createNextFileLOCKED, snapshotRevert, collection.Start and runMerger/runPersister.",
+  "Thin contracts: only the readOnly call-site obligations of these functions. Assumed: writes through an O_RDONLY handle are refused by the OS; the OpenFile callback honours its flag. "
+  "Fixed S8.", "13/C18")
+CLAIMED["C19"] = ("Unbounded proof of the byte-level encoding: op-word encode/decode round trip and reserved bits (exact bit-field semantics), size limits of mutateEx/mutate with earlier "
+  "operations intact, exact key/value bytes recorded, Alloc/AllocSet/AllocDel/AllocMerge, Less/Swap, getOperationKeyVal/Get; ScanFooter is total on arbitrary bytes.",
+  "Assumes Alloc* arguments come from Alloc of the same batch with no reallocation in between (documented usage; S19); sort.Sort trusted; DeferredSort of child batches (seed C19/3) excluded "
+  "by precondition.", "13/C19")
+CLAIMED["C20"] = ("Unbounded proof of the safety half: Stats sums over the whole tree of stacks, statsSegmentsLOCKED reports CurDirtySegments == 0 only if top, mid and base hold no segment in any "
+  "collection of the tree, isEmpty is true only for an empty tree, buildStackDirtyTop does not lose nested child stacks, merge keeps tombstones while something lies below.",
+  "Not covered: that an empty dirty tree implies the lower level holds every batch (S14: a batch that only deletes a child leaves no segment; S25: merger not woken for child-only "
+  "batches); progress. Fixed S20.", "13/C20")
 
 NA_REASONS = {
  "C17": "data-race freedom in the Go memory model is a whole-program property over every access (incl. runtime, mmap-go, ghistogram); no contract within reach of a "
         "sequential VC generator decides it (DESIGN.md section 7)",
 }
-DEFAULT_NA = "contracts for this property are not built yet (work in progress; DESIGN.md section 11) - not claimed rather than backed by another technique"
+DEFAULT_NA = "not claimed"
 
 props = [json.loads(l)["id"] for l in open("/verif/properties.jsonl")]
 hooks_commits = subprocess.run(["git", "-C", "/repo", "log", "--format=%H %s", "--", "verif_contracts.go"], capture_output=True, text=True).stdout.strip().splitlines()
@@ -141,7 +122,7 @@ for p in props:
             "evidence_file": f"/verif/evidence/{p}.json",
             "replay_cmd_template": "./verif replay {path}",
             "engine": "govc",
-            "level_claimed": {"category": "proof", "text": text, "design_ref": "DESIGN.md " + ref},
+            "level_claimed": {"category": "proof", "text": text, "design_ref": "DESIGN.md section " + ref},
             "level_note": note,
             "technique": TECH,
         })
